@@ -5,11 +5,11 @@ import (
 	"context"
 	"crypto/sha256"
 	"encoding/hex"
-	"path/filepath"
 	"fmt"
 	"math/big"
 	"os"
 	"os/exec"
+	"path/filepath"
 	"regexp"
 	"sort"
 	"strings"
@@ -21,19 +21,19 @@ import (
 // ---------- SMT-LIB emission ----------
 
 type emitter struct {
-	f        *Factory
-	abstract bool // product abstraction of non-linear monomials
-	sb       strings.Builder
-	names    map[*Term]string
-	declared map[string]bool
-	bound    map[string]bool // currently bound quantifier variables
-	depBound map[*Term]bool  // term depends on a bound var
-	prodVars map[string]*Term
-	nlin     int
-	usesQ    bool
+	f           *Factory
+	abstract    bool // product abstraction of non-linear monomials
+	sb          strings.Builder
+	names       map[*Term]string
+	declared    map[string]bool
+	bound       map[string]bool // currently bound quantifier variables
+	depBound    map[*Term]bool  // term depends on a bound var
+	prodVars    map[string]*Term
+	nlin        int
+	usesQ       bool
 	pendingDefs []*Term
-	seq      int
-	prodNames map[string]string
+	seq         int
+	prodNames   map[string]string
 }
 
 func smtInt(k *big.Int) string {
